@@ -104,65 +104,95 @@ def r3(ctx, R):
     R.check(len(ret) == 1 and ast.unparse(ret[0].value) == '(coeff, steps)', 'get_finite_difference_stencil :: returns (coeff, steps) in that order', w, '(coeff, steps)', [ast.unparse(r.value) for r in ret])
 
 
-@rule('C18', 'C18.R4', 'Kronecker sum: dimension d has exactly d terms, A_1d once per term in a distinct position, identities of complementary size', floor=3)
+def _kron_abstract(fn, dim):
+    """abstract interpretation of the dimension dispatch of get_finite_difference_matrix for a concrete `dim`: a matrix is a
+    multiset of tensor-factor tuples over {'A' (the 1-d operator), 'I' (identity of one grid direction)}; kron concatenates,
+    + adds multisets, sp.eye(size**k) is k identity factors.  Returns the value bound to the returned name."""
+    from collections import Counter
+
+    anchor = [i for i, st in enumerate(fn.body) if isinstance(st, ast.Assign) and ast.unparse(st) == 'A_1d = A_1d.tocsc()']
+    if len(anchor) != 1:
+        raise AnalysisError('get_finite_difference_matrix: `A_1d = A_1d.tocsc()` (end of the 1-d assembly) not found')
+    env = {'A_1d': Counter({('A',): 1})}
+
+    def cond(t):
+        u = ast.unparse(t)
+        m = re.fullmatch(r'dim == (\d+)', u)
+        if m:
+            return dim == int(m.group(1))
+        m = re.fullmatch(r'dim in [\[(]([\d, ]+)[\])]', u)
+        if m:
+            return dim in [int(x) for x in m.group(1).split(',') if x.strip()]
+        m = re.fullmatch(r'dim (>=|>|<=|<|!=) (\d+)', u)
+        if m:
+            return eval(f'{dim} {m.group(1)} {m.group(2)}')
+        raise AnalysisError(f'get_finite_difference_matrix: condition `{u}` of the dimension dispatch is not understood')
+
+    def val(n):
+        if isinstance(n, ast.Name):
+            if n.id in env:
+                return env[n.id]
+            raise AnalysisError(f'get_finite_difference_matrix: unknown matrix name {n.id} in the dimension dispatch')
+        if isinstance(n, ast.Call) and ast.unparse(n.func) == 'sp.kron' and len(n.args) >= 2:
+            a, b = val(n.args[0]), val(n.args[1])
+            out = Counter()
+            for x, cx in a.items():
+                for y, cy in b.items():
+                    out[x + y] += cx * cy
+            return out
+        if isinstance(n, ast.Call) and ast.unparse(n.func) == 'sp.eye' and n.args:
+            m = re.fullmatch(r'size(?:\s*\*\*\s*(\d+))?', ast.unparse(n.args[0]))
+            if not m:
+                raise AnalysisError(f'get_finite_difference_matrix: identity of size `{ast.unparse(n.args[0])}` is not a power of `size`')
+            return Counter({('I',) * int(m.group(1) or 1): 1})
+        if isinstance(n, ast.BinOp) and isinstance(n.op, ast.Add):
+            return val(n.left) + val(n.right)
+        if isinstance(n, ast.Call) and isinstance(n.func, ast.Attribute) and n.func.attr in ('tocsc', 'tocsr', 'tolil', 'copy') and not n.args:
+            return val(n.func.value)
+        raise AnalysisError(f'get_finite_difference_matrix: `{ast.unparse(n)[:60]}` is outside the vocabulary of the Kronecker analysis')
+
+    raised = []
+
+    def run(stmts):
+        for st in stmts:
+            if isinstance(st, ast.If):
+                run(st.body if cond(st.test) else st.orelse)
+            elif isinstance(st, ast.Assign) and len(st.targets) == 1 and isinstance(st.targets[0], ast.Name):
+                env[st.targets[0].id] = val(st.value)
+            elif isinstance(st, ast.Raise):
+                raised.append(ast.unparse(st)[:60])
+                return
+            elif isinstance(st, ast.Return):
+                env['__ret__'] = ast.unparse(st.value)
+                return
+            elif isinstance(st, (ast.Expr, ast.Pass)):
+                continue
+            elif isinstance(st, ast.AugAssign) and isinstance(st.op, (ast.Div, ast.Mult)) and isinstance(st.target, ast.Name) and not any(isinstance(x, ast.Name) and x.id in env for x in ast.walk(st.value)):
+                continue  # scaling by a scalar (dx ** derivative) does not change the tensor structure
+            else:
+                raise AnalysisError(f'get_finite_difference_matrix: statement `{ast.unparse(st)[:50]}` in the dimension dispatch is not understood')
+
+    run(fn.body[anchor[0] + 1:])
+    return env, raised
+
+
+@rule('C18', 'C18.R4', 'Kronecker sum: in dimension d the assembled operator is exactly the sum over the d tensor positions of I x .. x A_1d x .. x I, each once (abstract interpretation of the dimension dispatch over tensor-factor tuples); other dimensions raise', floor=4)
 def r4(ctx, R):
+    from collections import Counter
     repo = ctx.repo
     fn = repo.func(PH, 'get_finite_difference_matrix')
     w = f'{PH}:get_finite_difference_matrix'
     R.fn(w)
-    N = Normalizer(fn, inline_scalars=False)
-    arms = {}
-    for c in N.contribs:
-        if c.target == 'A' and c.op == '=' and c.guards:
-            m = re.search(r'dim == (\d)', c.guards[-1])
-            if m:
-                arms[int(m.group(1))] = c
-    if sorted(arms) != [1, 2, 3]:
-        raise AnalysisError(f'{w}: dim dispatch arms {sorted(arms)} != [1, 2, 3]')
-
-    def flat(node):
-        """kron(a, kron(b, c)) -> [a, b, c] as strings"""
-        if isinstance(node, ast.Call) and ast.unparse(node.func) == 'sp.kron':
-            return flat(node.args[0]) + flat(node.args[1])
-        return [ast.unparse(node)]
-
-    def terms(node):
-        if isinstance(node, ast.BinOp) and isinstance(node.op, ast.Add):
-            return terms(node.left) + terms(node.right)
-        return [node]
-
-    R.check(arms[1].rhs == 'A_1d', 'dim == 1 :: A = A_1d', w, 'A_1d', arms[1].rhs)
-    for d in (2, 3):
-        ts = [flat(t) for t in terms(arms[d].stmt.value)]
-        pos = sorted(t.index('A_1d') for t in ts if t.count('A_1d') == 1)
-        sizes_ok = True
-        for t in ts:
-            # product of identity sizes must be size**(d-1)
-            exps = 0
-            for x in t:
-                if x == 'A_1d':
-                    continue
-                m = re.fullmatch(r'sp\.eye\(size(?:\s*\*\*\s*(\d+))?\)', x)
-                if not m:
-                    sizes_ok = False
-                    break
-                exps += int(m.group(1) or 1)
-            sizes_ok &= exps == d - 1
-        # positions measured in units of `size`
-        def unit_pos(t):
-            p = 0
-            for x in t:
-                if x == 'A_1d':
-                    return p
-                m = re.fullmatch(r'sp\.eye\(size(?:\s*\*\*\s*(\d+))?\)', x)
-                p += int(m.group(1) or 1) if m else 0
-            return None
-        ups = sorted(unit_pos(t) for t in ts)
-        ok = len(ts) == d and all(t.count('A_1d') == 1 for t in ts) and ups == list(range(d)) and sizes_ok
-        R.check(ok, f'dim == {d} :: {d} Kronecker terms, A_1d in {d} distinct tensor positions, identities of total size size**{d - 1}', w, f'positions {list(range(d))}', {'terms': ts, 'positions': ups})
-    ch = [c for c in facts.dispatch_chains(fn) if c['subject'] == 'dim']
-    els = [s for s in walk_no_nested(fn) if isinstance(s, ast.Raise) and 'Dimension' in ast.unparse(s)]
-    R.check(bool(els), 'get_finite_difference_matrix :: other dimensions raise', w, 'raise NotImplementedError', [ast.unparse(e)[:60] for e in els])
+    for d in (1, 2, 3):
+        env, raised = _kron_abstract(fn, d)
+        ret = env.get('__ret__', '')
+        name = ret.split(',')[0].strip('() ') if ret else 'A'
+        got = env.get(name)
+        want = Counter({tuple('A' if i == p else 'I' for i in range(d)): 1 for p in range(d)})
+        show = lambda c: sorted(' x '.join(k) + (f' (x{v})' if v != 1 else '') for k, v in (c or {}).items())
+        R.check(got == want and not raised, f'dim == {d} :: operator = sum over the {d} direction(s) of the 1-d operator in that tensor position, identities elsewhere', w, show(want), show(got) if got is not None else f'nothing bound to {name!r}; raised: {raised}')
+    env, raised = _kron_abstract(fn, 4)
+    R.check(bool(raised), 'get_finite_difference_matrix :: other dimensions raise', w, 'raise NotImplementedError', raised or 'no raise for dim == 4')
 
 
 @rule('C18', 'C18.R5', 'call sites: every library caller passes derivative, order/steps, dx, size, dim and bc by keyword (no positional mix-up) and the grid spacing of the same grid', floor=6)
@@ -202,7 +232,69 @@ def r6(ctx, R):
     R.check(len(loops) == 1, 'get_finite_difference_matrix :: one closure per such row', w, 'for i in range(sWidth)', len(loops))
 
 
-@rule('C18', 'C18.R7', 'centred layout: number of stencil points = derivative + order - [derivative even] (symbolic parity analysis), offsets centred', floor=2)
+class _Vec(list):
+    def __sub__(self, k):
+        return _Vec(x - k for x in self)
+
+    def __add__(self, k):
+        return _Vec(x + k for x in self) if isinstance(k, int) else _Vec(list(self) + list(k))
+
+    def __neg__(self):
+        return _Vec(-x for x in self)
+
+
+def _enum_centre(arm):
+    """evaluate the assignments of the centre arm (integers, np.arange, len) for small derivative/order"""
+    def ev(n, env):
+        if isinstance(n, ast.Constant) and isinstance(n.value, int):
+            return n.value
+        if isinstance(n, ast.Name):
+            if n.id in env:
+                return env[n.id]
+            raise AnalysisError(f'get_steps: unknown name {n.id}')
+        if isinstance(n, ast.UnaryOp) and isinstance(n.op, ast.USub):
+            return -ev(n.operand, env)
+        if isinstance(n, ast.BinOp):
+            a, b = ev(n.left, env), ev(n.right, env)
+            op = type(n.op)
+            if op is ast.Add:
+                return a + b
+            if op is ast.Sub:
+                return a - b
+            if op is ast.Mult:
+                return a * b
+            if op is ast.FloorDiv:
+                return a // b
+            if op is ast.Mod:
+                return a % b
+        if isinstance(n, ast.Call) and ast.unparse(n.func) == 'np.arange' and not n.keywords and 1 <= len(n.args) <= 2:
+            v = [ev(a, env) for a in n.args]
+            return _Vec(range(*v))
+        if isinstance(n, ast.Call) and ast.unparse(n.func) == 'len' and len(n.args) == 1:
+            return len(ev(n.args[0], env))
+        raise AnalysisError(f'get_steps: cannot evaluate {ast.unparse(n)}')
+
+    bad = []
+    for der in range(1, 5):
+        for order in range(1, 9):
+            env = {'derivative': der, 'order': order}
+            try:
+                for st in arm.body:
+                    if isinstance(st, ast.Assign) and isinstance(st.targets[0], ast.Name):
+                        env[st.targets[0].id] = ev(st.value, env)
+            except (ZeroDivisionError, IndexError, ValueError) as ex:
+                bad.append(f'derivative={der}, order={order}: {type(ex).__name__}')
+                continue
+            steps, n = env.get('steps'), env.get('n')
+            want_n = der + order - (1 if der % 2 == 0 else 0)
+            if not isinstance(steps, list) or n != len(steps) or n != want_n or list(steps) != list(range(-(want_n // 2), want_n - want_n // 2)):
+                bad.append(f'derivative={der}, order={order}: n={n}, offsets={list(steps) if isinstance(steps, list) else steps} (expected {want_n} points {list(range(-(want_n // 2), want_n - want_n // 2))})')
+            if len(bad) >= 3:
+                return False, bad
+    return (not bad), (bad or ['32 (derivative, order) cases give the centred layout'])
+
+
+@rule('C18', 'C18.R7', 'centred layout: number of stencil points = derivative + order - [derivative even] (symbolic parity analysis; finite enumeration when written differently), offsets centred', floor=1)
 def r7(ctx, R):
     import sympy as sp
 
@@ -245,7 +337,15 @@ def r7(ctx, R):
                 return sp.floor(a / b)
         raise AnalysisError(f'get_steps: cannot read {ast.unparse(node)}')
 
-    even = sp.simplify(conv(defs['n'], 2 * k) - o - 2 * k)
-    odd = sp.simplify(conv(defs['n'], 2 * k + 1) - o - (2 * k + 1))
+    try:
+        even = sp.simplify(conv(defs['n'], 2 * k) - o - 2 * k)
+        odd = sp.simplify(conv(defs['n'], 2 * k + 1) - o - (2 * k + 1))
+        if ast.unparse(defs['steps']) != 'np.arange(n) - n // 2':
+            raise AnalysisError('offsets are not written as np.arange(n) - n // 2')
+    except AnalysisError as e:
+        # another way of writing the centred layout: finite case analysis of the extracted integer expressions (derivative 1..4, order 1..8)
+        ok_, detail = _enum_centre(arm)
+        R.check(ok_, 'get_steps :: centre: derivative + order - [derivative even] consecutive offsets around 0, for derivative 1..4 and order 1..8', w, f'finite enumeration (the symbolic parity analysis does not apply: {str(e)[:70]})', detail)
+        return
     R.check(even == -1 and odd == 0, 'get_steps :: centre: n - (derivative + order) is -1 for even and 0 for odd derivatives', w, {'even derivative': -1, 'odd derivative': 0}, {'even derivative': str(even), 'odd derivative': str(odd), 'n': ast.unparse(defs['n'])})
     R.check(ast.unparse(defs['steps']) == 'np.arange(n) - n // 2', 'get_steps :: centre: offsets are 0..n-1 shifted by n // 2', w, 'np.arange(n) - n // 2', ast.unparse(defs['steps']))
